@@ -21,6 +21,7 @@ from .expression import Expression
 from .optimizers.inliners import inline_builtin
 from .optimizers.inliners import inline_silent_rules
 from .optimizers.skippers import skip
+from .optimizers.squash_choice import preserves_order
 from .optimizers.squash_choice import squash
 from .optimizers.squash_choice import squash_choice
 from .optimizers.unroller import unroll
@@ -126,7 +127,7 @@ class Optimizer:
             and isinstance(whitespace.expression, Choice)
         ):
             expr = squash(whitespace.expression.expressions, OptimizedChoiceRepeat())
-            if expr:
+            if expr and preserves_order(expr.choices):
                 rules["SKIP"] = Rule("SKIP", expr, SILENT_ATOMIC)
 
     def _run_once(
